@@ -19,6 +19,7 @@ import CijModel.Ops.C16
 import CijModel.Ops.C11
 import CijModel.Ops.C08
 import CijModel.Ops.C09
+import CijModel.Ops.C18
 open Lean Cij.Wire
 
 def handlers : List Handler := [
@@ -37,7 +38,8 @@ def handlers : List Handler := [
   Cij.Ops.C16.handle,
   Cij.Ops.C11.handle,
   Cij.Ops.C08.handle,
-  Cij.Ops.C09.handle
+  Cij.Ops.C09.handle,
+  Cij.Ops.C18.handle
 ]
 
 def dispatch (line : String) : Json :=
